@@ -20,6 +20,7 @@ package c03
 import (
 	"encoding/hex"
 	"fmt"
+	"math/big"
 	"sort"
 	"strings"
 	"testing"
@@ -127,19 +128,36 @@ func newKeeperEnv(t *testing.T, r *run, profile []int64, keeperChain string) *ke
 	return e
 }
 
+// okAmount: amounts the bridge can mint, boundary-biased (units, around powers of ten, 2^64, a whole token of 18 decimals)
+func (e *keeperEnv) okAmount(g *gen) sdkmath.Int {
+	switch g.rng.Intn(6) {
+	case 0:
+		return sdkmath.NewInt(int64(1 + g.rng.Intn(3)))
+	case 1:
+		p := sdkmath.NewIntFromBigInt(new(big.Int).Exp(big.NewInt(10), big.NewInt(int64(1+g.rng.Intn(24))), nil))
+		return p.AddRaw(int64(g.rng.Intn(3)) - 1)
+	case 2:
+		return sdkmath.NewIntFromUint64(1 << 63).MulRaw(2).AddRaw(int64(g.rng.Intn(3)) - 1)
+	case 3:
+		return sdkmath.NewInt(1e18).MulRaw(int64(1 + g.rng.Intn(1000)))
+	default:
+		return sdkmath.NewInt(int64(1 + g.rng.Intn(100000)))
+	}
+}
+
 // acceptable rewrites the parts of a generated claim that decide whether the real handler gets anywhere: the registered
 // bridge token with a small amount, a plain receiver, an existing outgoing bridge call — everything else stays as generated
 func (e *keeperEnv) acceptable(g *gen, c claim) {
 	switch m := c.(type) {
 	case *ct.MsgSendToFxClaim:
 		m.TokenContract = e.token
-		m.Amount = sdkmath.NewInt(int64(1 + g.rng.Intn(1000)))
+		m.Amount = e.okAmount(g)
 		m.Receiver = sdk.AccAddress(g.bytes(20)).String()
 		m.TargetIbc = hx.Pick(g.rng, []string{"", hex.EncodeToString([]byte(fxtypes.ERC20Target)), m.TargetIbc})
 	case *ct.MsgBridgeCallClaim:
 		for i := range m.TokenContracts {
 			m.TokenContracts[i] = e.token
-			m.Amounts[i] = sdkmath.NewInt(int64(g.rng.Intn(1000)))
+			m.Amounts[i] = e.okAmount(g)
 		}
 		m.Value = sdkmath.ZeroInt()
 	case *ct.MsgBridgeCallResultClaim:
